@@ -33,7 +33,10 @@ Theorem C12_code_exceptions :
   (* value[field] on a non-mapping and hash(tag) of an unhashable value raise TypeError: caught right there, and never
      by the handlers around the variant call *)
   /\ catches non_mapping_handler [ETypeError] = true /\ catches hash_handler [ETypeError] = true
-  /\ catches key_lookup_handler [ETypeError] = false /\ catches variant_call_handler [ETypeError] = false.
+  /\ catches key_lookup_handler [ETypeError] = false /\ catches variant_call_handler [ETypeError] = false
+  (* the call of the selected variant sits INSIDE the region guarded by variant_call_handler / retry_handler: this is the
+     clause `OKeyErr -> refill_retry` / `OKeyErr -> ONotFound` of Discr.field_body (known finding variant-keyerror-misreported) *)
+  /\ variant_call_guarded = true.
 Proof. vm_compute. repeat split. Qed.
 Print Assumptions C12_code_exceptions.
 
